@@ -181,12 +181,16 @@ func ruleDeadlineDirection(c *Ctx, r *R) {
 	ctxP, dP := fn.Params[0], fn.Params[1]
 	// construction sites of DeadlineTooSoonError
 	n := 0
-	instrs(fn, func(b *ssa.BasicBlock, i int, in ssa.Instruction) {
+	isParamOf := func(v ssa.Value, chain []*ssa.Call, p *ssa.Parameter) bool {
+		pv := valueProv(v, provEnv{chain: chain})
+		return pv.root == ssa.Value(p) && len(pv.fields) == 0
+	}
+	for _, dd := range deepInstrs(fn, 2) {
+		in, b, chain := dd.in, dd.in.Block(), dd.calls
 		al, ok := in.(*ssa.Alloc)
 		if !ok || !isNamedType(al.Type(), "xtime", "DeadlineTooSoonError") {
-			return
+			continue
 		}
-		n++
 		var R, D ssa.Value
 		for _, ref := range *al.Referrers() {
 			if fa, ok := ref.(*ssa.FieldAddr); ok {
@@ -202,12 +206,16 @@ func ruleDeadlineDirection(c *Ctx, r *R) {
 				}
 			}
 		}
+		if R == nil && D == nil {
+			continue // a zero value (the "no error" result of a helper), not a reported error
+		}
+		n++
 		key := "xtime.SleepContext|too-soon#" + itoa(n)
 		if R == nil || D == nil {
 			r.violated(key, al.Pos(), "DeadlineTooSoonError must carry both remaining and d")
-			return
+			continue
 		}
-		r.ok(D == ssa.Value(dP), key+"|d-is-param", al.Pos(), "the d reported (and compared) must be the requested duration")
+		r.ok(isParamOf(D, chain, dP), key+"|d-is-param", al.Pos(), "the d reported (and compared) must be the requested duration")
 		// remaining is exactly time.Until(deadline) with deadline from ctx.Deadline()
 		exact := false
 		if call, ok := R.(*ssa.Call); ok {
@@ -224,7 +232,7 @@ func ruleDeadlineDirection(c *Ctx, r *R) {
 					}
 				}
 				if ex, ok := dl.(*ssa.Extract); ok && ex.Index == 0 {
-					if dc, ok := ex.Tuple.(*ssa.Call); ok && dc.Call.IsInvoke() && dc.Call.Method.Name() == "Deadline" && dc.Call.Value == ssa.Value(ctxP) {
+					if dc, ok := ex.Tuple.(*ssa.Call); ok && dc.Call.IsInvoke() && dc.Call.Method.Name() == "Deadline" && isParamOf(dc.Call.Value, chain, ctxP) {
 						exact = true
 					}
 				}
@@ -249,7 +257,7 @@ func ruleDeadlineDirection(c *Ctx, r *R) {
 			}
 		}
 		r.ok(dir && hasDeadline, key+"|direction", al.Pos(), "DeadlineTooSoonError must be returned exactly when a deadline exists and remaining < d (the direction is fixed by what the error means)")
-	})
+	}
 	if n == 0 {
 		r.violated("xtime.SleepContext|too-soon", fn.Pos(), "DeadlineTooSoonError is never returned")
 	}
@@ -265,68 +273,215 @@ func ruleDeadlineDirection(c *Ctx, r *R) {
 	r.ok(first, "xtime.SleepContext|nonpositive-first", fn.Pos(), "d <= 0 must return nil at once, before any deadline test")
 	// the timer runs for d; select arms
 	okTimer := false
-	instrs(fn, func(b *ssa.BasicBlock, i int, in ssa.Instruction) {
-		if call, ok := in.(*ssa.Call); ok {
-			if cal := call.Call.StaticCallee(); cal != nil && cal.Name() == "NewTimer" && call.Call.Args[0] == ssa.Value(dP) {
+	for _, dd := range deepInstrs(fn, 2) {
+		if call, ok := dd.in.(*ssa.Call); ok {
+			if cal := call.Call.StaticCallee(); cal != nil && cal.Name() == "NewTimer" && isParamOf(call.Call.Args[0], dd.calls, dP) {
 				okTimer = true
 			}
 		}
-	})
+	}
 	r.ok(okTimer, "xtime.SleepContext|timer-for-d", fn.Pos(), "the sleep timer must be created with d itself")
-	for _, op := range chanOpsOf(fn) {
-		for _, a := range op.arms {
-			if a.body == nil {
-				continue
-			}
-			ret, ok := a.body.Instrs[len(a.body.Instrs)-1].(*ssa.Return)
-			if !ok {
-				continue
-			}
-			switch a.kind {
-			case "ctx-done":
-				okE := false
-				if call, ok := ret.Results[0].(*ssa.Call); ok && call.Call.IsInvoke() && call.Call.Method.Name() == "Err" && call.Call.Value == ssa.Value(ctxP) {
-					okE = true
+	for _, fr := range deepFrames(fn, 2) {
+		for _, op := range chanOpsOf(fr.f) {
+			for _, a := range op.arms {
+				if a.body == nil {
+					continue
 				}
-				r.ok(okE, "xtime.SleepContext|ctx-arm-returns-err", retPos(ret), "the ctx.Done() arm must return ctx.Err()")
-			default:
-				r.ok(isNilConst(ret.Results[0]), "xtime.SleepContext|timer-arm-returns-nil", retPos(ret), "nil may be returned only from the arm in which the d-timer fired")
+				ret, ok := a.body.Instrs[len(a.body.Instrs)-1].(*ssa.Return)
+				if !ok {
+					continue
+				}
+				switch a.kind {
+				case "ctx-done":
+					okE := false
+					if call, ok := ret.Results[0].(*ssa.Call); ok && call.Call.IsInvoke() && call.Call.Method.Name() == "Err" && isParamOf(call.Call.Value, fr.chain, ctxP) {
+						okE = true
+					}
+					r.ok(okE, "xtime.SleepContext|ctx-arm-returns-err", retPos(ret), "the ctx.Done() arm must return ctx.Err()")
+				default:
+					r.ok(isNilConst(ret.Results[0]), "xtime.SleepContext|timer-arm-returns-nil", retPos(ret), "nil may be returned only from the arm in which the d-timer fired")
+				}
 			}
 		}
 	}
 }
 
-// tickerGen identifies the generation field of JitterTicker and the captured local it is compared with in the
-// AfterFunc callback, whatever they are called.
-func tickerGen(c *Ctx) (genField string, captured *ssa.Alloc, callback *ssa.Function) {
+// tickerGen identifies, by role, the generation field of JitterTicker: the integer field that the timer callback (the function
+// handed to time.AfterFunc by schedule, or a helper it calls) compares with a value that was captured in schedule when the
+// timer was armed.
+func tickerGen(c *Ctx) (genField string, callback *ssa.Function) {
 	sch := c.fn("xtime.JitterTicker.schedule")
 	if sch == nil {
-		return "", nil, nil
+		return "", nil
 	}
-	for _, clo := range sch.AnonFuncs {
-		instrs(clo, func(b *ssa.BasicBlock, i int, in ssa.Instruction) {
-			bin, ok := in.(*ssa.BinOp)
-			if !ok || (bin.Op != token.EQL && bin.Op != token.NEQ) {
-				return
+	var cb *ssa.Function
+	instrs(sch, func(b *ssa.BasicBlock, i int, in ssa.Instruction) {
+		if call, ok := in.(*ssa.Call); ok && isCallTo(&call.Call, "time", "", "AfterFunc") && len(call.Call.Args) == 2 {
+			if f, _ := funcAndReceiver(call.Call.Args[1]); f != nil {
+				cb = f
 			}
-			for _, pair := range [][2]ssa.Value{{bin.X, bin.Y}, {bin.Y, bin.X}} {
-				ld, ok := pair[0].(*ssa.UnOp)
-				if !ok {
+		}
+	})
+	if cb == nil {
+		return "", nil
+	}
+	for _, d := range deepInstrs(cb, 2) {
+		bin, ok := d.in.(*ssa.BinOp)
+		if !ok || (bin.Op != token.EQL && bin.Op != token.NEQ) {
+			continue
+		}
+		for _, pair := range [][2]ssa.Value{{bin.X, bin.Y}, {bin.Y, bin.X}} {
+			if f := tickerIntField(pair[0]); f != "" && capturedInSchedule(pair[1], d.calls, sch) {
+				return f, cb
+			}
+		}
+	}
+	return "", cb
+}
+
+// tickerIntField: v is a load of an int field of JitterTicker → its name.
+func tickerIntField(v ssa.Value) string {
+	ld, ok := resolveVal(v).(*ssa.UnOp)
+	if !ok || ld.Op != token.MUL || !isIntType(ld.Type()) {
+		return ""
+	}
+	fa, ok := ld.X.(*ssa.FieldAddr)
+	if !ok || !isNamedType(fa.X.Type(), "xtime", "JitterTicker") {
+		return ""
+	}
+	return fieldName(fa.X.Type(), fa.Field)
+}
+
+// capturedInSchedule: v (seen through the call chain) is a value that lives in schedule (a captured local / a value computed
+// there), not something read by the callback itself.
+func capturedInSchedule(v ssa.Value, chain []*ssa.Call, sch *ssa.Function) bool {
+	_, ok := capturedValue(v, chain, sch)
+	return ok
+}
+
+// capturedValue follows helper parameters back to the caller's arguments and answers with the variable of schedule (its cell)
+// or the value computed in schedule that v stands for.
+func capturedValue(v ssa.Value, chain []*ssa.Call, sch *ssa.Function) (ssa.Value, bool) {
+	for d := 0; d < 6; d++ {
+		switch x := v.(type) {
+		case *ssa.Parameter:
+			mapped := false
+			for i := len(chain) - 1; i >= 0; i-- {
+				cal := staticCallee(&chain[i].Call)
+				if cal == nil || origin(x.Parent()) != cal {
 					continue
 				}
-				fa, ok := ld.X.(*ssa.FieldAddr)
-				if !ok || !isNamedType(fa.X.Type(), "xtime", "JitterTicker") || !isIntType(ld.Type()) {
-					continue
+				for k, p := range x.Parent().Params {
+					if p == x && k < len(chain[i].Call.Args) {
+						v = chain[i].Call.Args[k]
+						chain = chain[:i]
+						mapped = true
+					}
 				}
-				if cell := loadCell(pair[1]); cell != nil && cell.Parent() == sch {
-					genField = fieldName(fa.X.Type(), fa.Field)
-					captured = cell
-					callback = clo
+				break
+			}
+			if !mapped {
+				return nil, false
+			}
+			continue
+		case *ssa.UnOp:
+			if x.Op == token.MUL {
+				if cell := cellOf(x.X); cell != nil && cell.Parent() == sch {
+					return cell, true
 				}
 			}
-		})
+			return nil, false
+		case *ssa.ChangeType:
+			v = x.X
+			continue
+		}
+		if in, ok := v.(ssa.Instruction); ok && in.Parent() == sch {
+			return v, true
+		}
+		return nil, false
 	}
-	return
+	return nil, false
+}
+
+// genGated: is (fn, block) reached only under <ticker>.gen == <captured generation>? Locally by a dominating guard, or - for an
+// unexported helper - at every call site.
+func genGated(c *Ctx, fn *ssa.Function, b *ssa.BasicBlock, chainUp []*ssa.Call, genF string, sch *ssa.Function, depth int) bool {
+	for _, g := range guardsOf(b) {
+		cf, ok := g.asCmp()
+		if !ok || cf.op != token.EQL {
+			continue
+		}
+		for _, pair := range [][2]ssa.Value{{cf.x, cf.y}, {cf.y, cf.x}} {
+			if tickerIntField(pair[0]) != genF {
+				continue
+			}
+			// the other side: captured in schedule, directly (closure) or through this helper's parameter at every call site
+			if capturedInSchedule(pair[1], nil, sch) {
+				return true
+			}
+			if pp, ok := pair[1].(*ssa.Parameter); ok && pp.Parent() == fn && depth < 3 {
+				pi := -1
+				for i, p := range fn.Params {
+					if p == pp {
+						pi = i
+					}
+				}
+				sites := callSitesOf(c, fn)
+				all := len(sites) > 0 && pi >= 0
+				for _, site := range sites {
+					if pi >= len(site.Call.Args) {
+						all = false
+						continue
+					}
+					if !capturedInSchedule(site.Call.Args[pi], nil, sch) {
+						all = false
+					}
+				}
+				if all {
+					return true
+				}
+			}
+		}
+	}
+	if depth < 3 && fn.Parent() == nil && !token.IsExported(fn.Name()) {
+		sites := callSitesOf(c, fn)
+		if len(sites) == 0 {
+			return false
+		}
+		for _, site := range sites {
+			if !genGated(c, site.Parent(), site.Block(), nil, genF, sch, depth+1) {
+				return false
+			}
+		}
+		return true
+	}
+	return false
+}
+
+// bumpsGen: fn increments the generation field unconditionally (itself, or through a helper it calls unconditionally).
+func bumpsGen(fn *ssa.Function, genF string, depth int) (ssa.Instruction, bool) {
+	var at ssa.Instruction
+	instrs(fn, func(b *ssa.BasicBlock, i int, in ssa.Instruction) {
+		if at != nil {
+			return
+		}
+		uncond := b == fn.Blocks[0] || len(guardsOf(b)) == 0
+		if !uncond {
+			return
+		}
+		if isFieldIncDec(in, genF, +1) {
+			at = in
+			return
+		}
+		if call, ok := in.(*ssa.Call); ok && depth < 2 {
+			if cal := staticCallee(&call.Call); cal != nil && cal.Blocks != nil && rootFn(cal).Pkg == rootFn(fn).Pkg && cal != fn {
+				if _, ok := bumpsGen(cal, genF, depth+1); ok {
+					at = in
+				}
+			}
+		}
+	})
+	return at, at != nil
 }
 
 func ruleTickGate(c *Ctx, r *R) {
@@ -336,7 +491,7 @@ func ruleTickGate(c *Ctx, r *R) {
 		r.undecided("xtime.JitterTicker|missing", token.NoPos, "anchor not found")
 		return
 	}
-	genF, capCell, _ := tickerGen(c)
+	genF, cb := tickerGen(c)
 	if genF == "" {
 		r.violated("xtime|generation", sch.Pos(), "the timer callback does not compare the ticker's generation with the one captured when the timer was armed: nothing stops a callback that is already running from ticking after Stop/Reset")
 		return
@@ -363,22 +518,15 @@ func ruleTickGate(c *Ctx, r *R) {
 				}
 				n++
 				key := "xtime|tick-send#" + itoa(n)
-				gated := false
-				for _, g := range guardsOf(op.in.Block()) {
-					if cf, ok := g.asCmp(); ok && cf.op == token.EQL {
-						for _, pair := range [][2]ssa.Value{{cf.x, cf.y}, {cf.y, cf.x}} {
-							if l2, ok := pair[0].(*ssa.UnOp); ok {
-								if f2, ok := l2.X.(*ssa.FieldAddr); ok && fieldName(f2.X.Type(), f2.Field) == genF && loadCell(pair[1]) == capCell {
-									gated = true
-								}
-							}
-						}
-					}
-				}
-				r.ok(gated, key+"|gen-gate", posOf(op.in), "a tick may be sent only under t.gen == gen (the generation captured when this timer was armed); otherwise a callback that was already running delivers a tick after Stop/Reset")
+				r.ok(genGated(c, fn, op.in.Block(), nil, genF, sch, 0), key+"|gen-gate", posOf(op.in), "a tick may be sent only under t.gen == gen (the generation captured when this timer was armed); otherwise a callback that was already running delivers a tick after Stop/Reset")
 				r.ok(!op.blocking, key+"|non-blocking", posOf(op.in), "the tick send must be non-blocking (it runs with the lock held)")
 				held := locksIn(fn, entryLocks(c, fn, 0))
-				_, locked := held[op.in]["t.m"]
+				locked := false
+				for lk := range held[op.in] {
+					if strings.HasSuffix(lk, ".m") {
+						locked = true
+					}
+				}
 				r.ok(locked, key+"|under-lock", posOf(op.in), "the generation test and the send must happen with t.m held")
 			}
 		}
@@ -386,17 +534,10 @@ func ruleTickGate(c *Ctx, r *R) {
 	if n == 0 {
 		r.violated("xtime|tick-send", sch.Pos(), "no tick is ever sent")
 	}
-	bump := func(fn *ssa.Function) bool {
-		res := false
-		instrs(fn, func(b *ssa.BasicBlock, i int, in ssa.Instruction) {
-			if isFieldIncDec(in, genF, +1) && (b == fn.Blocks[0] || len(guardsOf(b)) == 0) {
-				res = true
-			}
-		})
-		return res
-	}
-	r.ok(bump(sch), "xtime.JitterTicker.schedule|bumps-gen", sch.Pos(), "schedule must bump gen unconditionally so callbacks of the previous timer become no-ops")
-	r.ok(bump(stop), "xtime.JitterTicker.Stop|bumps-gen", stop.Pos(), "Stop must bump gen unconditionally: timer.Stop() cannot cancel a callback that already fired and is waiting for the lock; the generation bump is the only thing that turns it into a no-op")
+	bumpAt, okS := bumpsGen(sch, genF, 0)
+	r.ok(okS, "xtime.JitterTicker.schedule|bumps-gen", sch.Pos(), "schedule must bump gen unconditionally so callbacks of the previous timer become no-ops")
+	_, okT := bumpsGen(stop, genF, 0)
+	r.ok(okT, "xtime.JitterTicker.Stop|bumps-gen", stop.Pos(), "Stop must bump gen unconditionally: timer.Stop() cannot cancel a callback that already fired and is waiting for the lock; the generation bump is the only thing that turns it into a no-op")
 	stops := false
 	instrs(stop, func(b *ssa.BasicBlock, i int, in ssa.Instruction) {
 		if call, ok := in.(*ssa.Call); ok {
@@ -406,19 +547,40 @@ func ruleTickGate(c *Ctx, r *R) {
 		}
 	})
 	r.ok(stops, "xtime.JitterTicker.Stop|stops-timer", stop.Pos(), "Stop must stop the pending timer")
-	// the captured generation is read after the bump
+	// the captured generation is read after the bump: the value the callback compares with is produced, in schedule, by or
+	// after the bumping instruction
 	captured := false
-	for _, st := range storesTo(capCell) {
-		if st.Parent() != sch {
-			continue
-		}
-		if ld, ok := st.Val.(*ssa.UnOp); ok {
-			if fa, ok := ld.X.(*ssa.FieldAddr); ok && fieldName(fa.X.Type(), fa.Field) == genF {
-				instrs(sch, func(b *ssa.BasicBlock, i int, in ssa.Instruction) {
-					if isFieldIncDec(in, genF, +1) && (b.Dominates(ld.Block()) && (b != ld.Block() || i < idxIn(ld))) {
-						captured = true
+	if cb != nil && bumpAt != nil {
+		for _, d := range deepInstrs(cb, 2) {
+			bin, ok := d.in.(*ssa.BinOp)
+			if !ok || (bin.Op != token.EQL && bin.Op != token.NEQ) {
+				continue
+			}
+			for _, pair := range [][2]ssa.Value{{bin.X, bin.Y}, {bin.Y, bin.X}} {
+				if tickerIntField(pair[0]) != genF {
+					continue
+				}
+				cv, okc := capturedValue(pair[1], d.calls, sch)
+				if !okc {
+					continue
+				}
+				src, ok := cv.(ssa.Instruction)
+				if cell, isCell := cv.(*ssa.Alloc); isCell {
+					ok = false
+					for _, st := range storesTo(cell) {
+						if st.Parent() == sch {
+							if vi, ok2 := st.Val.(ssa.Instruction); ok2 {
+								src, ok = vi, true
+							}
+						}
 					}
-				})
+				}
+				if !ok || src.Parent() != sch {
+					continue
+				}
+				if src == bumpAt || (bumpAt.Block().Dominates(src.Block()) && (bumpAt.Block() != src.Block() || idxIn(bumpAt) < idxIn(src))) {
+					captured = true
+				}
 			}
 		}
 	}
